@@ -58,12 +58,19 @@ Proof. exact p_c07_encode_total. Qed.
 Theorem c07_encode_limit : forall la, 0 <= la < 2 ^ 62 -> encode (la + 2 ^ 31) la = EncPanic.
 Proof. exact p_c07_encode_limit. Qed.
 
-(* finding F31: the statement is FALSE for the in-memory value returned by encode (not
-   passed through put_packet_number): U24 keeps 32 bits and decode ORs them in *)
-Theorem c07_decode_direct_refuted :
-  exists pn la exp p, 0 <= la < 2 ^ 62 /\ pn - la < 2 ^ 31 /\ la < exp <= pn /\
-    encode pn la = EncOk p /\ decode p exp <> DecOk pn /\ decode (wire p) exp = DecOk pn.
-Proof. exact p_c07_decode_direct_refuted. Qed.
+(* full strength since the fix of F31 (`U24(pn as u32 & 0x00ff_ffff)`): the in-memory value
+   returned by encode decodes to pn as well, and it is already its own wire form *)
+Theorem c07_decode_direct : forall pn la exp,
+  0 <= la < 2 ^ 62 -> pn - la < 2 ^ 31 -> la <= exp <= pn ->
+  exists p, encode pn la = EncOk p /\ decode p exp = DecOk pn /\ wire p = p.
+Proof. exact p_c07_decode_direct. Qed.
+
+(* regression witness of F31: a U24 with an unreduced payload (still constructible through the
+   public enum) decodes differently from its wire form; encode no longer produces one *)
+Theorem c07_decode_unreduced_u24 :
+  decode (U24 67108865) 67108862 = DecOk 100663297 /\ decode (wire (U24 67108865)) 67108862 = DecOk 67108865
+  /\ encode 67108865 67068865 = EncOk (U24 1).
+Proof. exact p_c07_decode_unreduced_u24. Qed.
 
 (* non-vacuity: a history with a multi-frame packet, a trivial packet, abandoned guards,
    out-of-order acknowledgements, loss and a resize emits 0,1,2,3; and concrete boundary triples *)
@@ -94,5 +101,6 @@ Print Assumptions c07_decode_wide.
 Print Assumptions c07_decode_reordered.
 Print Assumptions c07_encode_total.
 Print Assumptions c07_encode_limit.
-Print Assumptions c07_decode_direct_refuted.
+Print Assumptions c07_decode_direct.
+Print Assumptions c07_decode_unreduced_u24.
 Print Assumptions c07_nonvacuous.
